@@ -38,6 +38,7 @@ type target struct {
 	lep    tcpip.Endpoint // dual-stack listener on port 80
 	uep    tcpip.Endpoint // dual-stack UDP socket on port 5353
 	conn   *rawpeer.Conn
+	conn2  *rawpeer.Conn
 	c      ctx
 	probeN int
 	mu     sync.Mutex
@@ -89,6 +90,18 @@ func (t *target) establish(idx int) {
 		t.c.ConnSeq, t.c.ConnAck = conn.IRS+1, conn.ISS+1
 		// unacknowledged data in flight: retransmission timers are armed while the barrage runs
 		conn.EP.Write(tcpip.SlicePayload(make([]byte, 3000)), tcpip.WriteOptions{})
+		rawpeer.Settle()
+	}
+	// the quiet connection
+	if t.conn2 != nil {
+		t.conn2.Close()
+	}
+	c2, _ := t.p4.Establish(rawpeer.EstOpts{LPort: uint16(28000 + idx%20000), PPort: uint16(61000 + idx%90), PeerISS: uint32(idx)*104729 + 5, MSS: 1460, WS: 2, Window: 30000})
+	t.conn2 = c2
+	t.c.Conn2L = 0
+	if c2 != nil {
+		t.c.Conn2L, t.c.Conn2P, t.c.Conn2Ack = c2.LPort, c2.PPort, c2.ISS+1
+		c2.EP.Write(tcpip.SlicePayload(make([]byte, 3000)), tcpip.WriteOptions{})
 		rawpeer.Settle()
 	}
 	t.p4.Take()
